@@ -36,8 +36,22 @@ def build_value(v):
     return v
 
 
+def build_fields(specs):
+    """[key, value, line] builds a new Field; {"same": n} puts an earlier Field object of this entry in again
+    (one object held twice: position, not identity or equality, decides what the writer and the views do)."""
+    out = []
+    for fs in specs:
+        if isinstance(fs, dict):
+            if out:
+                out.append(out[fs["same"] % len(out)])
+            continue
+        k, v, ln = fs
+        out.append(Field(k, build_value(v), ln))
+    return out
+
+
 def build_entry(s):
-    e = Entry(s["type"], s["key"], [Field(k, build_value(v), ln) for k, v, ln in s["fields"]], s.get("line"), s.get("raw"))
+    e = Entry(s["type"], s["key"], build_fields(s["fields"]), s.get("line"), s.get("raw"))
     for k, v in (s.get("meta") or {}).items():
         e.set_parser_metadata(k, v)
     return e
@@ -71,7 +85,20 @@ def build_block(s):
 
 
 def build_library(specs):
-    return Library([build_block(s) for s in specs])
+    """{"t": "same", "of": n} adds an earlier block *object* again (key-less blocks; for entries and strings an
+    equal twin is built instead, which the library turns into a duplicate-key block as in the real flow)."""
+    blocks, built = [], []
+    for s in specs:
+        if s["t"] == "same":
+            if not blocks:
+                continue
+            j = s["of"] % len(blocks)
+            blocks.append(blocks[j] if built[j]["t"] not in ("entry", "string") else build_block(built[j]))
+            built.append(built[j])
+            continue
+        blocks.append(build_block(s))
+        built.append(s)
+    return Library(blocks)
 
 
 def build_format(f):
@@ -140,7 +167,22 @@ def st_writer_library(max_blocks=8):
     dupf = st.fixed_dictionaries({"t": st.just("dupfield"), "entry": entry, "keys": st.just(["a"])})
     mwe = st.fixed_dictionaries({"t": st.just("mwerror"), "entry": entry, "err": st.sampled_from(["invalidname", "partial"])})
     block = st.one_of(entry, entry, entry, string, pre, ec, ic, failed, dupf, mwe)
-    return st.lists(block, max_size=max_blocks)
+
+    def with_repeats(args):
+        blocks, reps, frep = args
+        blocks = [dict(b) for b in blocks]
+        for pos, of in reps:
+            if blocks:
+                blocks.insert(1 + pos % len(blocks), {"t": "same", "of": of})
+        for bi, of in frep:
+            ents = [b for b in blocks if b["t"] == "entry" and b["fields"]]
+            if ents:
+                e = ents[bi % len(ents)]
+                e["fields"] = list(e["fields"]) + [{"same": of}]
+        return blocks
+
+    pairs = st.lists(st.tuples(st.integers(0, 9), st.integers(0, 9)), max_size=2)
+    return st.tuples(st.lists(block, max_size=max_blocks), st.one_of(st.just([]), st.just([]), pairs), st.one_of(st.just([]), st.just([]), st.just([]), pairs)).map(with_repeats)
 
 
 # ---------------------------------------------------------------------------------------------
